@@ -2,9 +2,13 @@
 
 Three values per case (operator tree, log_alg, trace_alg):
   real : cola.linalg.slogdet / logdet in-process -> sign * exp(logabs)
-  code : Lean `Op.claimedDet` (the rules of logdet.py evaluated exactly over Q[i], DriverC07.lean)
-  spec : exact determinant of the represented matrix `den A` (DriverC07.lean)
+  code : Lean `Op.claimedDet` (the rules of logdet.py evaluated exactly over Q[i], DriverC07.lean); on the Lanczos / Arnoldi
+         base cases the kernel is the EXACT KRYLOV MODEL (Model/KrylovExact.lean: un-normalised recurrence per identity probe,
+         A Q = Q H re-checked, power sums tr A^k through Q H^k e1, determinant by Newton's identities) -- not the spec
+  spec : exact determinant of the represented matrix `den A` (Gaussian elimination, DriverC07.lean)
 code == spec is compared EXACTLY; real is compared with a relative tolerance (transcendental functions, LAPACK).
+Numerical-range stream: long Diagonal / ScalarMul / Triangular / Kronecker / BlockDiag trees whose determinant leaves the
+floating point range; there `logabs` and `sign` are compared with log|det| and det/|det| of the EXACT determinant.
 """
 import collections
 import itertools
@@ -479,6 +483,66 @@ def close(v, z, tol):
     return abs(v - z) <= tol * max(abs(z), 1e-300)
 
 
+def exact_logabs_phase(spec):
+    """exact determinant (Lean, Gaussian rational as strings / ints) -> (log|det| as float, det/|det| as complex), computed
+    from the EXACT rational without ever forming |det| in floating point (it may be 1e-1000); None for det = 0"""
+    re, im = fr(spec[0]), fr(spec[1])
+    if re == 0 and im == 0:
+        return None
+    m2 = re * re + im * im                                  # exact |det|^2
+    ref = 0.5 * (math.log(m2.numerator) - math.log(m2.denominator))       # math.log takes arbitrarily large ints
+    big = max(abs(re), abs(im))
+    x, y = float(re / big), float(im / big)                 # exact ratios in [-1, 1]: correctly rounded
+    h = math.hypot(x, y)
+    return ref, complex(x / h, y / h)
+
+
+def exact_z_safe(v):
+    try:
+        return exact_z(v)
+    except OverflowError:
+        return None
+
+
+def classify_range(case, ans, real):
+    """numerical-range stream: determinants far outside the floating point range (|log det| in the hundreds or thousands).
+    `sign * exp(logabs)` cannot be formed; the property is checked in the form it is stated: logabs = log|det| and
+    sign = det / |det|, both against the EXACT determinant of the Lean specification."""
+    if "error" in ans:
+        return "driver-error", ans["error"]
+    code, spec = ans["code"], ans["spec"]
+    if spec is None or not ans.get("wf", False):
+        return "driver-error", "case outside the generator's contract (non-square or ill-formed)"
+    if "err" in code:
+        return "driver-error", f"range stream: model refuses ({code['err']})"
+    if code["ok"] != spec:
+        return "violation", "code model differs from the exact determinant on a structural tree"
+    if "err" in real:
+        return "violation", f"raised {real['err']}: {real.get('msg', '')}"
+    lp = exact_logabs_phase(spec)
+    if lp is None:
+        return "driver-error", "range stream: singular case"
+    ref, phase = lp
+    dts = leaf_dtypes(case["op"])
+    pr = "s" if any(prec(d) == "s" for d in dts) else "d"
+    tol = TOL[("direct", pr)]
+    s = complex(*real["sign"])
+    la = real["logabs"]
+    if not (math.isfinite(la) and math.isfinite(s.real) and math.isfinite(s.imag)):
+        return "violation", f"(sign, logabs) = ({s!r}, {la!r}) is not finite; log|det| = {ref!r}, det/|det| = {phase!r}"
+    if abs(la - ref) > tol * max(1.0, abs(ref)):
+        return "violation", f"logabs = {la!r}, log|det| = {ref!r}"
+    if abs(s - phase) > max(tol, UNIT_TOL[pr]) * 8:
+        return "violation", f"sign = {s!r}, det/|det| = {phase!r}"
+    if abs(abs(s) - 1) > max(UNIT_TOL[pr], 1e-9 if pr == "d" else 1e-4):
+        return "violation", f"|sign| = {abs(s)!r} is not 1"
+    if real["logdet"] != real["logabs"] and not (abs(real["logdet"] - real["logabs"]) <= 1e-12 * max(1.0, abs(real["logabs"]))):
+        return "violation", f"logdet = {real['logdet']!r} differs from slogdet[1] = {real['logabs']!r}"
+    if ref < 0 and not la < 0:
+        return "violation", "|det| < 1 but logabs >= 0"
+    return "ok", ""
+
+
 def classify(case, ans, real):
     """-> (status, detail).  status in ok, ok-spec-only, domain, precondition, known, violation, stale-model, driver-error"""
     if "error" in ans:
@@ -538,6 +602,10 @@ def classify(case, ans, real):
             return "violation", "logabs is not real"
         if abs(z_spec) < 1 and not real["logabs"] < 0 and abs(abs(z_spec) - 1) > 10 * tol:
             return "violation", "|det| < 1 but logabs >= 0"
+        lp = exact_logabs_phase(spec)
+        if lp is not None and abs(real["logabs"] - lp[0]) > 2 * tol * max(1.0, abs(lp[0])):
+            # the property as stated: logabs = log|det| (implied by the value comparison up to rounding; kept as its own test)
+            return "violation", f"logabs = {real['logabs']!r}, log|det| = {lp[0]!r}"
         return "ok", ""
     if rc and not cs:
         if ans.get("pre"):
@@ -588,7 +656,7 @@ def run(ctx):
         for c in cases:
             a = ans.get(keyof[c["id"]], {"error": "no answer"})
             real = run_real(c)
-            st, det = classify(c, a, real)
+            st, det = (classify_range if c.get("stream") == "range" else classify)(c, a, real)
             out.append((c, a, real, st, det))
         return out
 
@@ -596,6 +664,10 @@ def run(ctx):
         cur = case
         for _ in range(12):
             cands = [dict(cur, op=s) for s in square_subtrees(cur["op"])]
+            if cur["op"][0] == "diag" and len(cur["op"][2]) > 4:
+                # a long Diagonal (numerical-range stream): halve it while the failure persists
+                d = cur["op"][2]
+                cands += [dict(cur, op=["diag", cur["op"][1], d[:len(d) // 2]]), dict(cur, op=["diag", cur["op"][1], d[len(d) // 2:]])]
             cands = [c for c in cands if len(json.dumps(c["op"])) < len(json.dumps(cur["op"]))]
             if not cands:
                 break
@@ -622,7 +694,14 @@ def run(ctx):
             for k in set(a.get("base", [])):
                 dist["base_kinds"][k] += 1
             dist["dtype"][a.get("dtype", "?")] += 1
-            if a.get("spec") is not None:
+            if a.get("spec") is not None and c.get("stream") == "range":
+                lp = exact_logabs_phase(a["spec"])
+                if lp is not None:
+                    dist["det_class"]["out-of-range " + ("|det|<1e-300" if lp[0] < 0 else "|det|>1e300") if abs(lp[0]) > 690 else
+                                      "out-of-f32-range " + ("small" if lp[0] < 0 else "large")] += 1
+                    maxerr["range/abs-logabs"] = max(maxerr["range/abs-logabs"], abs(real.get("logabs", math.nan) - lp[0])
+                                                     if st == "ok" else 0.0)
+            elif a.get("spec") is not None:
                 z = exact_z(a["spec"])
                 cls = ("|det|<1" if abs(z) < 1 else "|det|=1" if abs(z) == 1 else "|det|>1") + " " + \
                       ("complex-phase" if z.imag != 0 else "negative" if z.real < 0 else "positive")
@@ -631,7 +710,7 @@ def run(ctx):
             nontrivial = len(gen.subexprs(c["op"])) > 1 or c["op"][0] not in ("eye",)
             if nontrivial:
                 distinct.add(common.canon([c["op"], c.get("la"), c.get("ta")]))
-        if st == "ok" and "ok" in a.get("code", {}):
+        if st == "ok" and "ok" in a.get("code", {}) and c.get("stream") != "range":
             v = real_value(real)
             z = exact_z(a["spec"])
             key = path_of(c, a) + "/" + ("s" if any(prec(d) == "s" for d in leaf_dtypes(c["op"])) else "d")
@@ -699,15 +778,25 @@ def run(ctx):
         "rule": "random non-singular operator trees (Product of square factors, Kronecker with unequal factor sizes, BlockDiag with "
                 "multiplicities, Diagonal, ScalarMul of every size, Identity, Triangular, Permutation, dense general / PSD, and gen.py "
                 "trees of all other kinds as base-case leaves) x (log_alg, trace_alg); distinct = canonical JSON of (tree, log_alg, "
-                "trace_alg); non-trivial = not a bare Identity",
+                "trace_alg); non-trivial = not a bare Identity; stream `range`: Diagonal (400-520 entries of magnitude 0.1-0.3 or 5-30 in double, "
+                "60-90 in single precision), the same inside Kronecker(., I_r) / BlockDiag with multiplicities / under a PSD declaration, ScalarMul of "
+                "that size, Triangular 60-80 (single precision): |log det| is 90 ... 1500, the determinant itself is not a floating point number",
         "compare": "code model (exact claimedDet over Q[i]) == exact determinant of den; real sign*exp(logabs) within the relative "
-                   "tolerance of either; |sign| = 1; sign = +-1 for real operators; logdet == slogdet[1]; |det| < 1 => logabs < 0",
+                   "tolerance of either; |sign| = 1; sign = +-1 for real operators; logdet == slogdet[1]; |det| < 1 => logabs < 0; "
+                   "logabs == log|det| (2 x the same tolerance, absolute on the logarithm, scaled by max(1, |log|det||)); stream `range`: "
+                   "logabs == log|det| and sign == det/|det| against the EXACT determinant (big-integer logarithm), finite results required",
         "provisional_known": PROVISIONAL_KNOWN,
     }
     common.write_evidence(ctx, gate, cov, assumptions=[
-        "numerical kernels (LAPACK cholesky, scipy lu, Lanczos/Arnoldi + eigendecomposition + exact trace) are parameters of the model "
-        "with contracts (L L^H = A, L lower; A = L[p] U; exp(tr log A) = det A); the contracts are hypotheses of the theorems and are "
-        "exercised only by the tolerance comparison of this stream",
+        "numerical kernels: LAPACK cholesky and scipy lu are parameters with contracts (L L^H = A, L lower; A = L[p] U), hypotheses of the theorems, "
+        "re-checked by the exact kernels of the driver on every call",
+        "Lanczos / Arnoldi base rule: no longer a contract on its result. Theorems C07_slogdet_krylov / C07_exp_trace_log / C07_krylov_columns + "
+        "KrylovCompose.{lanczos,arnoldi}_unary_exact reduce it to (i) the loop models of C14 / C15 run to Krylov exhaustion (proved invariance A Q = Q T), "
+        "(ii) LAPACK's small eigendecomposition T P = P diag(theta), P invertible (CONTRACT), (iii) A diagonalisable and non-singular (meaning of log A); "
+        "the executable model evaluates the Krylov path exactly on the monomials (power sums -> determinant); the transcendental step exp(tr log) on "
+        "the real floats is compared by tolerance only (Krylov streams: 1e-6 double / 5e-3 single)",
+        "stream `range`: IEEE range behaviour (under/overflow of a product) is outside the exact model; the stream compares the real logabs / sign with the "
+        "exact determinant's logarithm / phase, so a rule that forms the product before the logarithm is seen although code model == spec there",
         "Triangular operators are triangular (constructor promise); declared annotations are true",
         "IEEE rounding is outside the model: the real result is compared with relative tolerance " + json.dumps({f"{k[0]}/{k[1]}": v for k, v in TOL.items()}),
     ])
@@ -763,4 +852,59 @@ def build_cases(ctx, rng):
         if rng.random() < 0.5:
             t = ["kron", t, G.leaf_struct(rng.choice([1, 2]))]
         cases.append({"op": t, "la": rng.choice([None, "lu"]), "ta": None, "stream": "precondition"})
+    cases += range_cases(rng, 10 if not big else 80)
     return cases
+
+
+def range_cases(rng, count):
+    """numerical-range stream: structural trees whose determinant leaves the floating point range of their dtype although
+    every entry is harmless (|log det| > 709 in double precision: ~400 entries of size 0.1 or 10; > 87 in single precision:
+    ~60 entries).  The rules must work with sums of logarithms; the product of the entries under- / overflows."""
+    out = []
+
+    def entries(dt, n, small):
+        mags = [Fraction(1, 10), Fraction(1, 8), Fraction(1, 4), Fraction(3, 10)] if small else [Fraction(10), Fraction(8), Fraction(5), Fraction(30)]
+        units = [(1, 0), (-1, 0), (0, 1), (0, -1)] if is_cplx(dt) else [(1, 0), (1, 0), (-1, 0)]
+        es = []
+        for _ in range(n):
+            m, u = rng.choice(mags), rng.choice(units)
+            es.append(zj(m * u[0], m * u[1]))
+        return es
+
+    # (no long Product: the Lean SPECIFICATION `den` of a Product of two n x n members costs n^4 exact operations)
+    kinds = ["diag", "diag", "kron", "bdiag", "scalar", "tri", "annpsd"]
+    for i in range(count):
+        dt = rng.choice(["f64", "f64", "c128", "f32", "c64"])
+        single = prec(dt) == "s"
+        small = rng.random() < 0.6
+        long_n = rng.randint(60, 90) if single else rng.randint(400, 520)
+        kind = kinds[i % 7] if i < 7 else rng.choice(kinds)
+        if kind == "diag":
+            t = ["diag", dt, entries(dt, long_n, small)]
+        elif kind == "kron":
+            r = rng.choice([4, 5, 8])
+            t = ["kron", ["diag", dt, entries(dt, max(2, long_n // r), small)], ["eye", dt, r]]
+            if rng.random() < 0.5:
+                t = ["kron", t[2], t[1]]
+        elif kind == "bdiag":
+            m = rng.choice([2, 3, 4])
+            t = ["bdiag", [["diag", dt, entries(dt, max(2, long_n // m), small)], ["scalar", dt, zj(Fraction(1, 2)), 2]], [m, 1]]
+        elif kind == "scalar":
+            c = rng.choice([Fraction(1, 10), Fraction(1, 8)] if small else [Fraction(10), Fraction(8)])
+            u = rng.choice([(1, 0), (-1, 0), (0, 1)] if is_cplx(dt) else [(1, 0), (-1, 0)])
+            t = ["scalar", dt, zj(c * u[0], c * u[1]), long_n]
+        elif kind == "annpsd":
+            # positive Diagonal declared PSD: Auto() resolves to Cholesky only for base cases; the Diagonal rule still fires
+            mags = [Fraction(1, 10), Fraction(1, 4)] if small else [Fraction(10), Fraction(5)]
+            t = ["ann", "PSD", ["diag", dt, [zj(rng.choice(mags)) for _ in range(long_n)]]]
+        else:
+            # Triangular: its own rule (diagonal of the stored array); kept small (dense payload): single precision range
+            dt = rng.choice(["f32", "c64"])
+            n = rng.randint(60, 80)
+            d = entries(dt, n, small)
+            lower = rng.random() < 0.5
+            M = [[d[a] if a == b else (1 if ((a == b + 1) if lower else (b == a + 1)) and rng.random() < 0.3 else 0) for b in range(n)] for a in range(n)]
+            t = ["tri", dt, n, n, lower, M]
+        for la in ([None, "lu"] if kind not in ("tri", "annpsd") else [None] if kind == "tri" else [None, "chol"]):
+            out.append({"op": t, "la": la, "ta": None, "stream": "range"})
+    return out
